@@ -195,4 +195,15 @@ def build(ctx):
     sp.loader.exec_module(c14)
     c14.static_pieces(ctx)
     units += [u for u in c14.static_units(ctx, insts) if u.function != 'initStates_size']
+    # top level: the serial fallbacks of parallel_for must be handed the whole range (the extracted control skeleton of C48/C14; the static
+    # no-wait tail overlap listed as a known finding of C48/C14 is not C12's subject and is excluded from this unit's obligation)
+    c14.c48.skeleton_pieces(ctx)
+    for t, uu, sg in [c17.INSTS[4], c17.INSTS[7]]:
+        d = c17.inst_defines(t, uu, sg)
+        bits = int(t.replace('uint', '').replace('int', '').replace('_t', ''))
+        d['IT_MAX'] = str((1 << (bits - (1 if sg else 0))) - 1) + ('u' if not sg else '')
+        d['KF_EXCLUDE'] = 'g_static_nowait_pending'
+        units.append(Unit('parallel_for.skeleton (serial fallbacks run the whole range)', 'cbmc', 'specs/c48_skeleton.c', 'parallel_for_skeleton', defines=d, inst=t, timeout=600,
+                          replace=['computeGranularity', 'adjustChunkSizing', 'ChunkedRange_calcChunkSize', 'G_staticImpl', 'G_adaptiveWaitDispatch', 'G_dynamicImpl', 'G_dynamicNoWaitDispatch'],
+                          expect=[r'postcondition\.5', r'precondition'], flags=['--unwind', '9']))
     return units
